@@ -206,7 +206,7 @@ def main():
         try:
             st = State(root_dir=root, tmp_dir=os.path.join(root, "state"))
             odb = LocalHashFileDB(fs, odb_path, state=st)
-            odb.add(w["src"], fs, w["oid"])
+            odb.add(w["src"], fs, w["oid"], check_exists=w.get("check_exists", True))
             out = "ok"
         except BaseException as e:  # noqa: BLE001
             out = "error:%s" % type(e).__name__
